@@ -359,8 +359,11 @@ def for_loop(eng, s, st, fr, k):
             if lo is not None and hi is not None and hi - lo <= 8 and eng.cur.loops.get(ordn) is None:
                 return unrolled(eng, s, [z3.IntVal(i) for i in range(lo, hi)], st1, fr, k)
         if isinstance(it, Ref) and it.kind in ("dict_items", "dict_keys", "dict_values"):
-            from . import foreach
-            return foreach.dict_loop(eng, s, it, st1, fr, k)
+            from . import dicts
+            return dicts.dict_loop(eng, s, it, st1, fr, k)
+        if isinstance(it, Ref) and it.kind == "dict":
+            from . import dicts
+            return dicts.dict_loop(eng, s, Ref(it.base, "dict_keys"), st1, fr, k)
         enum_start = None
         if isinstance(it, PyEnum) and isinstance(it.seq, (Opq,)) or (
                 isinstance(it, PyEnum) and isinstance(it.seq, Ref) and it.seq.kind == "iter"):
